@@ -81,6 +81,12 @@ CLAIMED = {
         "os/pathlib semantics, symlinks, special files, permissions and concurrent modification are outside the model",
         "DESIGN.md §6 C19",
     ),
+    "C20": (
+        "Lean 4 theorems universally quantified over the draw stream ('for all seeds' = 'for all draw streams') + recorded-draw replay against the real generator",
+        "The model consumes an explicit list of draws (function, arguments, result) in the order the code calls random.*; theorems for every draw stream: types allowed by the relations, counts fixed or within the randomizer's range (0 when skipped), attributes = merge of `*`/type/relation specs with {idx}/{hier_idx} expanded, values in their declared ranges, skipped attributes absent, typed trees carry the type name as kind. Tie: random structure definitions with every randomizer class; the draws made by the real build_random_tree are recorded by wrapping the `random` module for the duration of the call and replayed on the model, trees compared exactly; Conforms oracle on the implementation.",
+        "PRNG quality, fabulist text content and float arithmetic of uniform() are outside the model; acyclic relation graphs",
+        "DESIGN.md §6 C20",
+    ),
     "C09": (
         "Lean 4 theorems (search loop with counter/break = filter+take; index access decision table) + differential correspondence",
         "Theorems in lean/Nutree/Properties/C09.lean: the `_search` loop equals the matching nodes of the pre-order cut to the first k; find_first = head; index lookups with a limit are a prefix of the clone list; tree[key] resolves node_id, then data_id, then data with KeyError/Ambiguous/ValueError as specified. Tie: all small forests with clones x start nodes x patterns x limits x key kinds.",
